@@ -34,6 +34,9 @@ csearch_t::csearch_t(const function_t& function, const scalar_t m1, const scalar
 const csearch_t::point_t& csearch_t::search(bundle_t& bundle, const scalar_t miu, const tensor_size_t max_evals,
                                             const scalar_t epsilon, const logger_t& logger)
 {
+    // NB: the status of a previous search must not be reported if the budget is exhausted before any decision!
+    m_point.m_status = csearch_status::max_iters;
+
     auto& t = m_point.m_t;
     t       = 1.0;
     auto tL = 0.0;
